@@ -37,4 +37,14 @@ theorem C09_sites :
       (s.1, s.2.2.1, s.2.2.2) ∈ Gomjml.Expect.AttrSites.knownNonFull := by
   decide +kernel
 
+/-- **no read past the resolvers**: the only functions that look into a component's own attribute map are the four resolvers;
+    everything else that touches the map is one of the three recorded width hand-downs.  A helper that reads `Attrs["x"]`
+    directly sees the element's own attribute only — the defect behind 6bdfa39, where `GetCSSClass` did exactly that and
+    css-class from mj-attributes was accepted and dropped — and breaks this theorem. -/
+theorem C09_no_read_past_resolvers :
+    ∀ s ∈ Gomjml.Gen.AttrSites.ownMapSites,
+      (s.2.1 = "read" ∧ s.1 ∈ Gomjml.Expect.AttrSites.resolverBodies) ∨
+      (s.2.1 = "write" ∧ (s.1, s.2.2) ∈ Gomjml.Expect.AttrSites.ownMapWrites) := by
+  decide +kernel
+
 end Gomjml.Props.C09
